@@ -44,6 +44,7 @@ PROBES = ['legacy_checkpoint_in_orbax_dir', 'orbax_debris_in_legacy_dir', 'step0
 
 GOOD_PREFIXES = ['checkpoint_', 'ckpt', 'a_b_', 'run1_', 'model.x']
 BAD_PREFIXES = ['m-', 'v2.', 'run1']  # end in '-', '.', digit: were glued to the step before fix 943634b
+GLOB_PREFIXES = ['run[1]_', 'x*y_', 'q?_']  # glob metacharacters: the listing sites matched the prefix as a PATTERN before the repair
 DIRS = ['/sim/run-3/x7', '/sim/ckpts', '/sim/a.b/e-1']
 ORBAX_TMP = '.orbax-checkpoint-tmp'
 ORBAX_SHARE = 0.04  # of histories; an Orbax history costs ~15x a legacy one, so roughly a third of the wall time
@@ -128,7 +129,7 @@ def generate(rs, tier):
     io_mode=g.choice(['TF', 'DEFAULT']),
     chunk=g.choice([1, 7, 64, 2**30]),
     dir=g.choice(DIRS),
-    prefix=g.choice(BAD_PREFIXES) if bad_prefix else g.choice(GOOD_PREFIXES),
+    prefix=g.choice(BAD_PREFIXES) if bad_prefix else (g.choice(GLOB_PREFIXES) if g.random() < 0.07 else g.choice(GOOD_PREFIXES)),
     listdir_seed=g.getrandbits(16),
     faults=faults,
     asyn=asyn,
@@ -218,7 +219,7 @@ def simplify(plan):
     yield dict(plan, knobs=dict(k, io_mode='DEFAULT'))
   if k['dir'] != '/sim/ckpts':
     yield dict(plan, knobs=dict(k, dir='/sim/ckpts'))
-  if k['prefix'] not in ('checkpoint_',) and k['prefix'] in GOOD_PREFIXES:
+  if k['prefix'] not in ('checkpoint_',) and k['prefix'] in GOOD_PREFIXES + GLOB_PREFIXES[1:]:
     yield dict(plan, knobs=dict(k, prefix='checkpoint_'))
   for i, op in enumerate(plan['ops']):
     if op['op'] != 'save':
@@ -259,6 +260,7 @@ def signature(plan, v):
   return dict(
     backend=k['backend'],
     bad_prefix=k['prefix'] in BAD_PREFIXES,
+    glob_prefix=k['prefix'] in GLOB_PREFIXES,
     any_fault=bool(faulted),
     overwrite_faulted=bool(lf.get('overwrite')),
     fault_site=lf.get('site'),
